@@ -332,6 +332,42 @@ def _movable(e):
     return False
 
 
+def const_array_args(fnode, callee_prefix='local_orthonormalize'):
+    """`one = np.array(<constant literal>)` bound once in the function and read only as a positional argument of the
+    package's local_orthonormalize_* helpers (which never write their arguments - C19.PURE): the literal is put back at
+    those argument positions.  Used by the rules that recognise the dummy neighbour of the boundary factorisation."""
+    fn = copy.deepcopy(fnode)
+    stores = _store_counts(fn)
+    for s in list(ast.walk(fn)):
+        for f in ('body', 'orelse', 'finalbody'):
+            blk = getattr(s, f, None)
+            if not (isinstance(blk, list) and blk and isinstance(blk[0], ast.stmt)):
+                continue
+            for d in list(blk):
+                if not (isinstance(d, ast.Assign) and len(d.targets) == 1 and isinstance(d.targets[0], ast.Name) and
+                        stores.get(d.targets[0].id) == 1 and isinstance(d.value, ast.Call) and norm(d.value.func) == 'np.array' and
+                        d.value.args and _const_literal(d.value.args[0])):
+                    continue
+                X = d.targets[0].id
+                loads = [n for n in ast.walk(fn) if isinstance(n, ast.Name) and n.id == X and isinstance(n.ctx, ast.Load)]
+                argpos = [a for c in ast.walk(fn) if isinstance(c, ast.Call) and norm(c.func).split('.')[-1].startswith(callee_prefix)
+                          for a in c.args if isinstance(a, ast.Name) and a.id == X]
+                if not loads or len(loads) != len(argpos):
+                    continue
+
+                class R(ast.NodeTransformer):
+                    def visit_Call(self, node):
+                        self.generic_visit(node)
+                        if norm(node.func).split('.')[-1].startswith(callee_prefix):
+                            node.args = [ast.copy_location(copy.deepcopy(d.value), a) if isinstance(a, ast.Name) and a.id == X else a
+                                         for a in node.args]
+                        return node
+                R().visit(fn)
+                blk.remove(d)
+    ast.fix_missing_locations(fn)
+    return fn
+
+
 def _allocates(e):
     return any(isinstance(n, (ast.List, ast.Dict, ast.Set, ast.ListComp, ast.DictComp, ast.SetComp)) or
                (isinstance(n, ast.Call) and norm(n.func) == 'np.array') for n in ast.walk(e))
@@ -665,6 +701,10 @@ def normalise_function(fnode, known_locals, known_spellings=()):
     fn = index_loops(fn, keep)
     fn = forward_site_stores(known_locals)(fn)
     fn = inline_unknown_temps(known_locals, keep)(fn)
+    if any(isinstance(x, ast.Name) and x.id not in known_locals for x in ast.walk(fn)):
+        # a constant dummy neighbour held in a new local goes back to its argument positions (the helpers it is handed to
+        # never write their arguments: C19.PURE, checked on the same tree)
+        fn = const_array_args(fn)
     fn = negative_indices(fn)
     return fn
 
